@@ -1,7 +1,7 @@
 import logging
 from typing import Dict, List, Optional, Union, cast
 
-from indi.message import EnableBLOB, IndiMessage, NewBLOBVector, const
+from indi.message import EnableBLOB, IndiMessage, SetBLOBVector, const
 from indi.routing import Client, Device
 
 logger = logging.getLogger(__name__)
@@ -49,7 +49,7 @@ class Router:
             del self.blob_routing[client]
 
     def process_message(self, message: IndiMessage, sender: SenderType = None):
-        is_blob = isinstance(message, NewBLOBVector)
+        is_blob = isinstance(message, SetBLOBVector)
 
         if message.from_client:
             if isinstance(message, EnableBLOB):
@@ -67,13 +67,10 @@ class Router:
                         device_name, self.DEFAULT_BLOB_POLICY
                     )
                     if (
-                        is_blob
-                        and client_blob_policy
-                        in (
-                            const.BLOBEnable.ALSO,
-                            const.BLOBEnable.ONLY,
-                        )
-                    ) or (not is_blob and client_blob_policy == const.BLOBEnable.NEVER):
+                        client_blob_policy == const.BLOBEnable.ALSO
+                        or (is_blob and client_blob_policy == const.BLOBEnable.ONLY)
+                        or (not is_blob and client_blob_policy == const.BLOBEnable.NEVER)
+                    ):
                         client.message_from_device(message)
 
     def process_enable_blob(self, message: EnableBLOB, sender: SenderType):
